@@ -64,6 +64,14 @@ Definition mon_meta_covers_renewals (s : State) : bool :=
                            | None => true end) (o_shards o)
     | None => true
     end).
+(* with no update in flight, a model that still has completed shards lives exactly as long as the longest-lived of
+   them, queued renewals included (what ExtendMetaDuration / ResetMetaDuration maintain; a rollback restores it) *)
+Definition mon_meta_expiry_is_shard_end (s : State) : bool :=
+  all_s (metas s) (fun d m =>
+    if m_status m =? MetaComplete then
+      let mx := reset_expired_height s (m_orders m) in
+      (mx =? 0) || (u64 (m_created m + m_duration m) =? mx)
+    else true).
 (* at block boundaries every scheduled height is in the future *)
 Definition mon_schedules_future (h : Z) (s : State) : bool :=
   all_z (expshards s) (fun k _ => h <? k) && all_z (expdata s) (fun k _ => h <? k).
@@ -198,6 +206,7 @@ Definition app_monitors (boundary : bool) (h : Z) (s : State) : list (string * b
     ("sched.expdata_live", mon_expdata_live s);
     ("sched.meta_covers_shards", mon_meta_covers_shards s);
     ("sched.meta_covers_renewals", mon_meta_covers_renewals s);
+    ("sched.meta_expiry_is_shard_end", negb boundary || mon_meta_expiry_is_shard_end s);
     ("sched.future", negb boundary || mon_schedules_future h s);
     ("sched.timeout_scheduled", negb boundary || mon_timeout_scheduled h s);
     ("sched.long_timeout_scheduled", negb boundary || mon_long_timeout_scheduled h s);
